@@ -1609,7 +1609,7 @@ theorem fi_doActionCore (w : World) (mid : Nat) (batch : Option Txn) (a : Action
     cases a with
     | create o tr =>
       have hk : ∀ (w1 w' : World), Q w [] w w1 → Inv.Inv w1 →
-          w'.orders = w1.orders ++ [{ o with id := w1.orders.length, created := w1.clock, statusAt := w1.clock, status := none, complete := false }] →
+          w'.orders = w1.orders ++ [{ o with id := w1.orders.length, created := w1.clock, statusAt := w1.clock, status := none, complete := false, log := [] }] →
           w'.markets = w1.markets → w'.queue = w1.queue → w'.foreign = w1.foreign → FIm mid w' batch ∧ w'.foreign = w.foreign := by
         intro w1 w' k1 hI1 h1 h2 h3 h4
         have k := k1.trans (q_appendOrder w [] w1 w' _ rfl h1 h2 h3 h4 (by simp) hI1)
